@@ -86,8 +86,10 @@ Definition rel (o : cop) (a b : key) : tv :=
 (* The fast path for  key o literal  (kernel compileConstCompare +
    expr.Comparison + expr.NewFilter): the predicate is specialised to the
    literal's type and is false for a key of any other type (so  "a" != 1  is
-   false here although  1 != "a"  is true on the general path); a null literal
-   supports only == and != and falls back to the general path otherwise. *)
+   false here although  1 != "a"  is true on the general path), except that a
+   null key answers what the general path answers: true only for != (since the
+   repair of expr.Comparison; before it a typed null was decoded as zero); a null
+   literal supports only == and != and falls back to the general path otherwise. *)
 Definition relc (o : cop) (k c : key) : tv :=
   match k with
   | KMissing => TMissing
@@ -99,8 +101,18 @@ Definition relc (o : cop) (k c : key) : tv :=
       | ONe => tvb (negb (key_eqb k KNull))
       | _ => rel o k c
       end
-    | KInt y => match k with KInt x => tvb (conv o (cmp_to_Z (Z.compare x y))) | _ => TF end
-    | KStr y => match k with KStr x => tvb (conv o (cmp_to_Z (bytes_cmp x y))) | _ => TF end
+    | KInt y =>
+      match k with
+      | KInt x => tvb (conv o (cmp_to_Z (Z.compare x y)))
+      | KNull => match o with ONe => TT | _ => TF end
+      | _ => TF
+      end
+    | KStr y =>
+      match k with
+      | KStr x => tvb (conv o (cmp_to_Z (bytes_cmp x y)))
+      | KNull => match o with ONe => TT | _ => TF end
+      | _ => TF
+      end
     | KMissing => rel o k c
     end
   end.
